@@ -95,9 +95,10 @@ package graphql
 
 //@ func completePlannedValueCatchingError
 //@   trusted
-//@   assigns class:executionContext.Errors, class:FormattedError
+//@   assigns class:executionContext.Errors, class:FormattedError, class:fieldPlan.abstractAlternatives, class:M|*graphql.Object|*graphql.selectionPlan
 
 //@ func resolvePlannedField
+//@   assigns class:executionContext.Errors, class:FormattedError, class:fieldPlan.abstractAlternatives, class:M|*graphql.Object|*graphql.selectionPlan
 //@   props C04 C20 C06
 //@   nosafety
 //@   requires eCtx != nil && fp != nil && fp.fieldDef != nil
@@ -120,6 +121,7 @@ package graphql
 //@   functional
 
 //@ func executePlannedSelection
+//@   assigns class:executionContext.Errors, class:FormattedError, class:fieldPlan.abstractAlternatives, class:M|*graphql.Object|*graphql.selectionPlan
 //@   props C20 C13 C01
 //@   nosafety
 //@   requires eCtx != nil
@@ -129,6 +131,7 @@ package graphql
 //@   at[C01] call resolvePlannedField: assert fp.fieldDef != nil
 
 //@ func completePlannedListValue
+//@   assigns class:executionContext.Errors, class:FormattedError, class:fieldPlan.abstractAlternatives, class:M|*graphql.Object|*graphql.selectionPlan
 //@   props C20 C18 C04
 //@   nosafety
 //@   requires eCtx != nil && returnType != nil
@@ -136,6 +139,7 @@ package graphql
 //@   at[C20] call completePlannedValueCatchingError: assert arg0 == eCtx && arg1 == returnType.OfType && arg2 == fp
 
 //@ func completePlannedObjectValue
+//@   assigns class:executionContext.Errors, class:FormattedError, class:fieldPlan.abstractAlternatives, class:M|*graphql.Object|*graphql.selectionPlan
 //@   props C20 C04
 //@   nosafety
 //@   requires eCtx != nil && returnType != nil
@@ -143,6 +147,7 @@ package graphql
 //@   at[C20] call executePlannedSelection: assert arg0 == eCtx && arg1 == fp.sub && arg2 == result && arg3 == returnType && arg4 == path
 
 //@ func completePlannedAbstractValue
+//@   assigns class:executionContext.Errors, class:FormattedError, class:fieldPlan.abstractAlternatives, class:M|*graphql.Object|*graphql.selectionPlan
 //@   props C20 C04 C01
 //@   nosafety
 //@   requires eCtx != nil && fp != nil && (eCtx.plan == nil || !held(&eCtx.plan.abstractMu))
